@@ -1,5 +1,5 @@
 /-
-  notes/pktz/PacketizerBridge.lean  —  FOR THE INTEGRATOR.  Not part of the build of branch agent-pktz
+  Rtp/Proofs/PacketizerBridge.lean — ties the packetizer model to the general packet model (written on branch agent-pktz, moved into the build after the merge;
   (it imports Rtp.Model.Packet, which that branch does not have).  After merging with the core packet
   model, move this file to lean/Rtp/Proofs/PacketizerBridge.lean; it was checked (lake build, axioms
   propext / Classical.choice / Quot.sound only, no sorry) against lean/Rtp/Model/Packet.lean of /verif
